@@ -84,6 +84,23 @@ Theorem C39_two_hop_example :
 Proof. exact two_hop_example. Qed.
 Print Assumptions C39_two_hop_example.
 
+(** Chains of any length: if the request of [src] is forwarded hop after hop
+    ([chain]: each hop's emitted frame is addressed to the next hop and is the
+    request event that hop handles; in between each hop does anything except
+    receive an answer under its forwarding id), then at every hop the answer
+    goes to the previous hop - at the first hop to [src] - under that one's
+    own id, to nobody else and to no local caller ([answers]). *)
+Theorem C39_chain_answers : forall src oid target path tag hops rtag,
+  chain src oid target path tag hops -> answers src oid target path tag rtag hops.
+Proof. exact chain_answers. Qed.
+Print Assumptions C39_chain_answers.
+
+(** ... and a three-transit chain exists (1 asks 4 through 9, 8 and 7, each
+    transit with its own unrelated requests in between). *)
+Theorem C39_three_hop_chain : chain 1 7 4 [8; 7; 4] 11 [hop9; hop8; hop7].
+Proof. exact three_hop_chain. Qed.
+Print Assumptions C39_three_hop_chain.
+
 (** The 64-bit counter.  nextControlID is a Go uint64; the model's counter is
     an unbounded N.  Along every run of fewer than 2^64 events the counter
     never wraps (its value mod 2^64 is its value) and every id in use - own
